@@ -112,6 +112,27 @@ def one_case(arg):
                       {"PWD": elsewhere, "GIT_DIR": "../../.git"}))
         modes.append(("symlinked-cwd-logical-PWD", elsewhere, [sz] + argv, {"PWD": elsewhere}))
         # a decoy repository where the lexically joined path would point
+        # the object store addressed through the environment: objects moved out of the git dir entirely, or half of them
+        # available only through an alternate named by the environment
+        od = os.path.join(d, "odir.git")
+        shutil.copytree(gitdir, od)
+        moved = os.path.join(d, "moved-objects")
+        shutil.move(os.path.join(od, "objects"), moved)
+        os.makedirs(os.path.join(od, "objects"))
+        modes.append(("GIT_OBJECT_DIRECTORY", unrelated, [sz] + argv, {"GIT_DIR": od, "GIT_OBJECT_DIRECTORY": moved}))
+        ad = os.path.join(d, "adir.git")
+        shutil.copytree(gitdir, ad)
+        altstore = os.path.join(d, "env-alternate")
+        os.makedirs(altstore)
+        k_ = 0
+        for dp, dns, fns in os.walk(os.path.join(ad, "objects")):
+            for fn in fns:
+                if len(os.path.basename(dp)) == 2 and len(fn) == 38:
+                    k_ += 1
+                    if k_ % 2:
+                        os.makedirs(os.path.join(altstore, os.path.basename(dp)), exist_ok=True)
+                        os.rename(os.path.join(dp, fn), os.path.join(altstore, os.path.basename(dp), fn))
+        modes.append(("GIT_ALTERNATE_OBJECT_DIRECTORIES", unrelated, [sz] + argv, {"GIT_DIR": ad, "GIT_ALTERNATE_OBJECT_DIRECTORIES": altstore}))
         gf = os.path.join(d, "gitfile-wt")
         os.makedirs(os.path.join(gf, "inner"))
         with open(os.path.join(gf, ".git"), "w") as f:
